@@ -12,6 +12,7 @@ META = {
     "level": "Decides the structural clauses: every kind the writer emits has a reader branch building the matching entry class; the TarInfo attributes read are exactly those written; every regular member is added either as a zero-size hardlink or with its data; member names and hardlink targets are normalised the same way and never through a multi-character strip; hardlinked members share the target's inode and are themselves registered (chains); nested symlinked directories are relocated to a fixpoint; the empty-archive handler catches the exception type tarfile really raises. Does NOT decide byte-level round trips on concrete archives.",
     "note": "",
 }
+META["technique"] += "; " + 'generic pack G on the anchored files (optional-flag shift, closures outliving a loop iteration, single-pass iterables consumed twice, %-templates built from data, in-place writes to class-level / memoised objects, generators mutating what they yielded, memo keys that are projections)'
 MOD = "pkgcore.fs.tar"
 KIND = {"is_reg": ("isreg", "fsFile"), "is_dir": ("isdir", "fsDir"), "is_sym": ("issym", "fsSymlink"), "is_fifo": ("isfifo", "fsFifo"), "is_dev": ("isdev", "fsDev")}
 
